@@ -93,6 +93,11 @@ Theorem rebuilt_commit_keeps_signer_and_signature r p sig : p_body p = BCommit s
 Proof. exact (rebuild_commit_keeps_signer_and_signature r p sig). Qed.
 Print Assumptions rebuilt_commit_keeps_signer_and_signature.
 
+(* ... but a Commit of ANOTHER view than the recovery message's travels relabelled (the view kept in the compact entry is ignored) *)
+Theorem commit_of_another_view_is_relabelled_by_the_recovery_message r p : p_view p <> p_view r -> rebuild_commit r p <> p.
+Proof. exact (rebuild_commit_relabels_another_view r p). Qed.
+Print Assumptions commit_of_another_view_is_relabelled_by_the_recovery_message.
+
 (* across encode/decode: everything the message rebuilds survives, except ... *)
 Theorem codec_keeps_request_commits_precommits_change_views m r i :
   get_request (transmit m) r i = get_request m r i /\ get_commits (transmit m) r = get_commits m r /\
